@@ -952,7 +952,8 @@ Lemma identify_response_listen o peer local b i : identify_response o peer local
   exists m, dec_identify b = Some m /\ incl (ii_listen i) (i_listen m) /\
             (length (ii_listen i) <= length (i_listen m))%nat.
 Proof.
-  unfold identify_response. destruct (dec_identify b) as [m|]; [|discriminate]. intros [= <-].
+  unfold identify_response. destruct (IDENTIFY_PAYLOAD_SIZE <? blen b); [discriminate|].
+  destruct (dec_identify b) as [m|]; [|discriminate]. intros [= <-].
   exists m. split; [reflexivity|]. cbn [ii_listen]. split.
   - intros a Ha. apply filter_In in Ha. apply Ha.
   - apply filter_len.
